@@ -338,6 +338,45 @@ func bigDictCase(c *core.Ctx, n int, second bool) {
 	c.Op("reset", "ok")
 }
 
+// witnessParkedMore: the other five snapshot+memory readers, each parked right after its snapshot read
+// while PrepareFlush + Flush of its store run: GetGroupingContext (group by), CollectKVs (group-by value
+// strings), GetValues, Suggest, invertedIndex.getSeriesIDs (all series of a metric).
+func witnessParkedMore(c *core.Ctx) {
+	d, err := newDBT(c)
+	if err != nil {
+		c.Fail("harness-env", err.Error())
+		return
+	}
+	defer d.close()
+	d.write("cpu", map[string]string{"host": "abc", "zone": "z1"})
+	d.write("cpu", map[string]string{"host": "zz", "zone": "z1"})
+	flushAll(d)
+	round := 0
+	next := func() {
+		round++
+		d.write("cpu", map[string]string{"host": fmt.Sprintf("ab%d", round), "zone": "z2"})
+		d.write("cpu", map[string]string{"host": fmt.Sprintf("zz%d", round), "zone": fmt.Sprintf("y%d", round)})
+	}
+	idx := []string{"prepare-index", "flush-index"}
+	meta := []string{"prepare-meta", "flush-meta"}
+	like := func(k, p string) stmt.Expr { return &stmt.LikeExpr{Key: k, Value: p} }
+	next()
+	d.queryParked("grouping", "cpu", like("host", "**"), idx, "host")
+	next()
+	d.queryParked("grouping", "cpu", like("zone", "z*"), idx, "zone", "host")
+	next()
+	d.queryParked("collect", "cpu", like("host", "ab*"), meta, "host")
+	next()
+	d.queryParked("collect", "cpu", like("zone", "**"), meta, "zone")
+	next()
+	d.parkedDirect("values", "cpu", "host", meta)
+	next()
+	d.parkedDirect("suggest", "cpu", "zone", meta)
+	next()
+	d.parkedDirect("allseries", "cpu", "host", idx)
+	d.query("cpu", like("host", "**"), []string{"host", "zone"}, "tree")
+}
+
 // ---------------------------------------------------------------- forward reader / merger on raw buffers
 
 // capture is a kv.Flusher + table.StreamWriter that keeps the committed values in memory.
